@@ -257,6 +257,27 @@ func reconnectScripted(w *trace.Writer, seed int64) bool {
 		e.emit(trace.E{"ev": "hang", "what": "Subscribe does not return after Close"})
 		return true
 	}
+	if r.Intn(3) == 0 {
+		// the client stays closed: a further Subscribe on it returns at once
+		again := make(chan struct{})
+		go func() {
+			e.emit(trace.E{"ev": "inv", "op": "Subscribe"})
+			err := rc.Subscribe(context.Background(), q, typ)
+			res := "nil"
+			if err != nil {
+				res = "err"
+			}
+			e.emit(trace.E{"ev": "ret", "op": "Subscribe", "res": res})
+			close(again)
+		}()
+		select {
+		case <-again:
+		case <-time.After(bound):
+			e.emit(trace.E{"ev": "hang", "what": "Subscribe on a closed client does not return"})
+			rc.Close()
+			return true
+		}
+	}
 	e.emit(trace.E{"ev": "final"})
 	return false
 }
